@@ -352,3 +352,40 @@ package contracts
 //@ func errors.Is :: err, target -> ok
 //@   trusted
 //@   pure
+
+//@ -- sync, fsnotify, tls.LoadX509KeyPair (certwatcher) ----------------------------------------------------
+//@ func sync.(*RWMutex).Lock
+//@   trusted
+//@   pure
+//@ func sync.(*RWMutex).Unlock
+//@   trusted
+//@   pure
+//@ func sync.(*RWMutex).RLock
+//@   trusted
+//@   pure
+//@ func sync.(*RWMutex).RUnlock
+//@   trusted
+//@   pure
+
+//@ -- ghost trace of the certificate watcher: 1 = watch (re-)added for a path, 2 = key pair loaded from disk
+//@ ghost var cwlog seq[int]
+//@ ghost var lastWatched string
+//@ -- the pair most recently loaded successfully (LoadX509KeyPair only succeeds for a certificate and key that match)
+//@ ghost var lastLoadedPair tls.Certificate
+
+//@ func tls.LoadX509KeyPair :: certFile, keyFile -> cert, err
+//@   trusted
+//@   assigns cwlog, lastLoadedPair
+//@   ensures cwlog == old(cwlog) ++ seq[int]{2}
+//@   ensures err == nil ==> lastLoadedPair == cert
+//@   ensures err != nil ==> lastLoadedPair == old(lastLoadedPair)
+
+//@ func fsnotify.(*Watcher).Add :: w, name -> err
+//@   trusted
+//@   assigns cwlog, lastWatched
+//@   ensures cwlog == old(cwlog) ++ seq[int]{1} && lastWatched == name
+
+//@ func fsnotify.NewWatcher :: -> w, err
+//@   trusted
+//@   pure
+//@   ensures err == nil ==> w != nil
